@@ -3,4 +3,5 @@ import Driver.LuCheck
 import Driver.PivotEng
 import Driver.FactorEng
 import Driver.SchedEng
+import Driver.FixupEng
 import Driver.Main
